@@ -49,15 +49,21 @@ SegOK(e, o) ==
   \/ /\ e.k = "data" /\ o.k = "data"
      /\ o.z = e.z /\ o.p = e.p
 (* AsImplemented_EmptyCompressed: whether C(z, empty payload) has any byte at all is a fact about
-   the compressor (property C20), not about raw payload fidelity: the zstd writer emits nothing for
-   no input while gzip emits a header and a trailer.  A data segment of an empty payload is therefore
-   admitted both present (then it must decode to the empty payload under z) and absent; lengths are
-   still checked against the bytes actually present. *)
-AsImplemented_EmptyCompressed(segs) == SelectSeq(segs, LAMBDA s : ~(s.k = "data" /\ s.p \in ZeroLen))
-BodyOK(exp, obs) == LET e == AsImplemented_EmptyCompressed(exp)
-                        o == AsImplemented_EmptyCompressed(obs) IN
-                    /\ Len(e) = Len(o)
-                    /\ \A i \in 1..Len(e) : SegOK(e[i], o[i])
+   the compressor (property C20): the zstd writer emits nothing for no input while gzip emits a header
+   and a trailer.  What this property requires of it is invertibility: zero bytes may stand for an empty
+   payload compressed with z exactly when the stock decoder of z turns zero bytes into the empty payload.
+   The Go side reports every zero-byte range as [k |-> "zero", zs |-> formats for which that holds]; such
+   a token matches an expected empty data segment of one of those formats, or nothing at all. *)
+ZsOf(o) == {o.zs[i] : i \in 1..Len(o.zs)}
+RECURSIVE SegsOK(_, _)
+SegsOK(e, o) ==
+  IF o = <<>> THEN e = <<>>
+  ELSE IF Head(o).k = "zero"
+    THEN \/ SegsOK(e, Tail(o))
+         \/ /\ e # <<>> /\ Head(e).k = "data" /\ Head(e).p \in ZeroLen /\ Head(e).z \in ZsOf(Head(o))
+            /\ SegsOK(Tail(e), Tail(o))
+    ELSE e # <<>> /\ SegOK(Head(e), Head(o)) /\ SegsOK(Tail(e), Tail(o))
+BodyOK(exp, obs) == SegsOK(exp, obs)
 
 (* ------------------------------ header lists ------------------------------
    e = [name |-> spelling, cname |-> canonical name, value |-> Seq(String)].  A list is folded
@@ -116,11 +122,12 @@ WhyResp(def, snap, obs) ==
    Query parameters are compared per name: values already in the URI, then the raw ones, then the
    encoded ones, each in the given order (AsImplemented_QueryOrder: the statement does not order
    parameters of different names; url.Values.Encode sorts by name).  A value token is
-     [t |-> "lit", s |-> string]   or   [t |-> "enc", key |-> "<z>/<p>/<b64>", orEmpty]
-   (orEmpty: the compressed form of an empty payload may itself be empty, see AsImplemented_EmptyCompressed) *)
+     [t |-> "lit", s |-> string]   or   [t |-> "enc", key |-> "<z>/<p>/<b64>"]
+   (an empty value reads as an empty payload under the formats of AsImplemented_EmptyCompressed; the Go side
+   lists those readings) *)
 ZStr(z) == CASE z = 1 -> "1" [] z = 2 -> "2" [] z = 3 -> "3" [] z = 4 -> "4" [] z = 5 -> "5" [] z = 6 -> "6"
 EncKey(m, b64) == ZStr(ZNorm(m.z)) \o "/" \o m.p \o "/" \o (IF b64 THEN "1" ELSE "0")
-EncQTok(e) == IF HasBytes(e.m) THEN [t |-> "enc", key |-> EncKey(e.m, e.b64), orEmpty |-> e.m.p \in ZeroLen]
+EncQTok(e) == IF HasBytes(e.m) THEN [t |-> "enc", key |-> EncKey(e.m, e.b64)]
               ELSE [t |-> "lit", s |-> ""]
 Lit(s) == [t |-> "lit", s |-> s]
 
@@ -141,7 +148,7 @@ MethodOf(def) == IF def.verb = "" THEN "GET" ELSE def.verb
 \* an observed query value: [s |-> the string (as decoded by the server), enc |-> set of "<z>/<p>/<b64>"
 \* readings under which stock base64url / stock decoders turn it into a payload of the definition]
 QValOK(e, o) == \/ e.t = "lit" /\ o.s = e.s
-                \/ e.t = "enc" /\ (e.key \in {o.enc[i] : i \in 1..Len(o.enc)} \/ (e.orEmpty /\ o.s = ""))
+                \/ e.t = "enc" /\ e.key \in {o.enc[i] : i \in 1..Len(o.enc)}
 QValsOK(es, os) == Len(es) = Len(os) /\ \A i \in 1..Len(es) : QValOK(es[i], os[i])
 
 \* observed query: Seq([cname, vals]) with one entry per name
